@@ -447,8 +447,13 @@ def rule_r5(repo, run, P):
     n = 0
     for m in repo.modules():
         for kind, recv, node in pyflow.mutation_sites(m.tree):
-            if recv is None or kind in ("setattr", "augassign"):
+            if recv is None:
                 continue
+            inplace_add = isinstance(node, ast.AugAssign) and isinstance(node.op, ast.Add)
+            if kind in ("setattr", "augassign") and not inplace_add:
+                continue        # rebinding is fine; `x.f += y` extends the shared list in place
+            if kind == "setattr":
+                kind = "+= (in-place extend)"
             parts = recv.split(".")
             if len(parts) >= 2 and parts[-1] in shared and parts[0] != "self":
                 # receiver like ntypemap.c_header  /  arg.typemap.LUA_statements
